@@ -944,9 +944,11 @@ class MaskedImage(Image):
             boundary=boundary, constrain_to_bounds=False
         )
         # no point doing the bounds check twice - let the crop do it only.
+        # bounds_true reports the last True index, crop takes an exclusive
+        # upper limit - so go one past it to keep the last True row/column
         return self.crop(
             min_indices,
-            max_indices,
+            max_indices + 1,
             constrain_to_boundary=constrain_to_boundary,
             return_transform=return_transform,
         )
